@@ -262,7 +262,7 @@ def combiner_configs(r, n, kinds=None, processes=None, schemes=None, with_empty_
         parts = r.choice([None, "full", "massless", "massive"]) if scheme.startswith("FONLL") or r.random() < 0.2 else None
         t = cards.theory(FNS=scheme, NfFF=nfff, PTODIS=pto, PTO=pto_evol, FONLLParts=parts, **th_kw)
         pos = r.choice([None, None, None, "all", "c", "u", "d", "b"]) if process != "CC" else None
-        target = r.choice(["proton", "neutron", "isoscalar", "iron", "lead", dict(Z=float(r.uniform(0, 3)), A=float(r.uniform(3, 6)))])
+        target = r.choice(["proton", "neutron", "isoscalar", "iron", "lead", dict(Z=float(r.uniform(0, 3)), A=float(r.uniform(3, 6))), dict(Z=float(r.choice([0.0, 0.25, 0.5, 1.0])), A=1.0), dict(Z=float(r.choice([0.0, 0.7, 2.0])), A=2.0)])
         ks = kinds or (cards.UNPOL if process == "CC" else cards.SFS)
         names = [f"{k}_{f}" for k in r.sample(ks, min(3, len(ks))) for f in r.sample(cards.FLAVORS + cards.HEAVYLIGHTS, 4)]
         kins = [dict(x=float(r.uniform(0.01, 0.9)), Q2=cards.rand_q2(r)) for _ in range(3)]
